@@ -472,10 +472,16 @@ func ucisched(args []string) {
 		// that is neither idle nor gone is waiting in Halt for a first iteration: release those.
 		quiet := false
 		deadline := time.Now().Add(5 * time.Second)
+		if closed {
+			// after quit / end of input "at rest" means the driver has shut down; an idle loop that has not
+			// yet been scheduled to see the command is not at rest (and only a driver that stays alive for
+			// many seconds is reported as not shutting down)
+			deadline = time.Now().Add(20 * time.Second)
+		}
 		stuckSince := time.Now()
 		for time.Now().Before(deadline) {
 			flushOut()
-			loopDone := c.LoopIdle() || s.Dead
+			loopDone := (c.LoopIdle() && !closed) || s.Dead
 			if !loopDone && stub != nil && time.Since(stuckSince) > 15*time.Millisecond {
 				for k := 1; k <= stub.Instances()+1; k++ {
 					stub.Release(k, 1)
